@@ -107,6 +107,10 @@ def task_delays(table):
     try:
         wrap(brew_mod, "_fit_model", lambda train_set, psms, model, fold: fold)
         wrap(brew_mod, "predict_fold", lambda model, fold, psms, scores: fold + 1)
+        if hasattr(brew_mod, "_create_psms"):
+            # a step *inside* a training task (between its first statements and the fit): stalls a task in mid-flight while
+            # others start, so that state shared between the fold tasks is seen in another order
+            wrap(brew_mod, "_create_psms", lambda *a, **k: counter["n"] * 2 + 1)
         wrap(pin_mod, "get_rows_from_dataframe", lambda idx, chunk, *a, **k: int(chunk.index[0]) if len(chunk) else 0)
         wrap(pin_mod, "drop_missing_values_and_fill_spectra_dataframe", lambda reader, column, *a, **k: len(str(column[0])) + len(column))
         wrap(conf_mod, "_save_sorted_metadata_chunks", lambda chunk_metadata, *a, **k: int(chunk_metadata.index[0]) if len(chunk_metadata) else 0)
